@@ -53,6 +53,9 @@ def run(c):
     for m, (base, singles) in singles_by_message(gen).items():      # repeated element, later copy of a different length
         for v in dup_variants(base, singles):
             cases.append(dict(k="dec", entry="plain", inp=v))
+    for m, (base, singles) in singles_by_message(gen).items():      # every pair of different elements in definition order, salted
+        for v in canonical_pairs(m, base, singles):
+            cases.append(dict(k="dec", entry="plain", inp=v))
     for m, (base, singles) in singles_by_message(gen).items():      # an optional part of exactly 64 KiB
         for v in exact_64k_inputs(m, base, singles):
             cases.append(dict(k="dec", entry="plain", inp=v))
